@@ -36,7 +36,9 @@ func withHalf(q *gmref.Peer, h gmref.Half, f func() error) error {
 func epochCases() []epochCase {
 	stale := func(q *gmref.Peer) error { return q.WriteRecord(gmref.RecApp, []byte("STALE")) }
 	return []epochCase{
-		{"control: a record under the new keys with the next sequence number", true, func(q *gmref.Peer, old gmref.Half, oldTotal uint64) error { return q.WriteRecord(gmref.RecApp, []byte("FRESH")) }},
+		{"control: a record under the new keys with the next sequence number", true, func(q *gmref.Peer, old gmref.Half, oldTotal uint64) error {
+			return q.WriteRecord(gmref.RecApp, []byte("FRESH"))
+		}},
 		{"protected under the previous epoch's keys, sequence number continuing there", false, func(q *gmref.Peer, old gmref.Half, oldTotal uint64) error {
 			return withHalf(q, old, func() error { return stale(q) })
 		}},
